@@ -6,24 +6,61 @@
   _handle_rcmd_stdout/_stderr -> _do_output -> _flush_lines (-> _extract_rc) per arrival, the
   drain loop after the remote side closed, and _flush_output -- over the FIFO specification of
   the circular buffer (`Cbuf.Spec`) together with cbuf.c's request/growth policy
-  (`PBuf.wfd`), starting from `cbuf_create (64, 131072)`.
-  `sizeMeta` = the bookkeeping cells of the cbuf build flavour (1 shipped, 17 with assertions);
-  every theorem holds for 1 <= sizeMeta <= 800.
+  (`PBuf.wfd`), starting from `cbuf_create (RELAY_CBUF_MIN, RELAY_CBUF_MAX)` -- the arguments are
+  REGENERATED from dsh.c `_thd_init` on every run, and no theorem unfolds them.
+  `sizeMeta` = the bookkeeping cells of the cbuf build flavour (1 shipped, 17 with assertions).
+  The ONLY hypothesis about the constants is the decidable side condition `growthOk sizeMeta`
+  (Relay/Growth.lean: every growth step of cbuf.c's policy, started from the initial size, makes room
+  for the read that triggers it, and the maximum covers 128 KiB): `growthOk_generated(_assert)` prove
+  it for the regenerated constants of both build flavours; `growth_from_4096_ok`/`growth_from_1024_not_ok`
+  say which "harmless bigger initial buffer" IS harmless (4096: same even-thousands allocation sequence
+  as 64) and which is not (1024: odd thousands, last step 130999 -> 131072 gains 73 bytes for a read
+  of up to 1000); `short_growth_step_drops` shows the condition is NECESSARY (a short last step
+  overwrites unread bytes).  `pdshmodel relay growth` evaluates the same predicate in the check, which
+  pins streams around every capacity of the growth sequence (quick tier: the first and last steps).
   `script` = ANY cutting of the stream into arrivals (one handler call after each arrival;
   empty arrivals = polls that find nothing new); `S = script.flatten` is the stream itself.
   `markerOf readRc` = the return-code marker for stdout (`readRc = true`), nothing for stderr.
 
   The index-level model of cbuf.c (`indexOps`, the instance executed against the real code)
   simulates `fifoOps` (Relay/IndexSim.lean `idx_sim`, on top of property C13's refinement
-  lemmas), so the `_index` theorems below state the same of the index-level relay without any
-  hypothesis about the buffer.  Threads, the kernel and poll() are not modelled (real-process
-  runs in the check).
+  lemmas `writeFromFd_refines`/`read_refines`/`peekLine_refines`), so the `_index` theorems state the
+  same of the index-level relay without any hypothesis about the buffer.
+
+  CLAUSE OF THE STATEMENT                                   THEOREM
+  bytes written (label stripped) = bytes the command wrote  relay_lossless, relay_lossless_stripped, relay_c05Ok,
+    nothing lost / duplicated / invented, in order            relay_closed_form (+ _index, _index_generated)
+  "likewise standard error to standard error"               stderr_relayed_like_stdout, relay_only_own_stream
+  any read sizes, lines split across reads                  relay_chunk_independent (every script of the same stream)
+  short reads / EAGAIN / EINTR / any poll order             worker_delivers_what_it_read (every event list of `pollStep`)
+  output ending without a newline, empty lines              in `Spec.render` / the domain (tail, lines of 1 byte)
+  many hosts streaming at once                              relay_lossless_any_interleaving (+ _index_)
+  -N                                                        relay_verbatim_with_N
+  the loop runs until BOTH streams are at EOF               poll_loop_left_only_at_eof_of_both, handler_closes_exactly_at_eof
+  a worker is done only after its output is delivered (C03) worker_done_has_delivered_everything, worker_done_equals_runStream
+  a host that is given up on (timeout, poll error)          abandoned_stream_relays_what_was_read, worker_delivers_what_it_read
+  a host whose command never starts                         unstarted_host_writes_nothing
+  pdcp/rpdcp: remote stderr through the same functions      rcp_stderr_relayed, pdcp_success_reads_no_stderr
+  domain: NUL-free, lines <= 128 KiB, no marker             dom_in_words; sharpness: beyond_domain_drops_head,
+                                                              nul_cuts_record, extractRc_with_marker_cuts, marker_lookalikes_untouched
+  the constants the proof leans on (cbuf_create arguments,  growthOk_generated(_assert), growth_from_4096_ok,
+    CBUF_CHUNK, bookkeeping cells)                            growth_from_1024_not_ok, short_growth_step_drops (necessity)
+
+  NOT PROVED (correspondence / real runs only): when the bytes of a stdio call reach the descriptor is the
+  stdio layer's business (Relay/Stdio.lean, Props/C06 `records_reach_consumer_any_schedule`: assumption that
+  glibc behaves like that writer); what a transport child does to inherited stdio buffers (seeded C06-5: must
+  be nothing, `_exit`); read(2) errors other than EAGAIN/EINTR (the handler prints a diagnostic and closes the
+  descriptor: outside the property's domain, exercised by the scheduler part); `xpoll.c` itself and the kernel
+  (the LTS takes their behaviour as events: any subset reported, any cap, any order); threads (one worker per
+  host, per-call atomicity of stdio: Props/C06); the hand-written model's fidelity to dsh.c/err.c as such
+  (differential execution on every run, incl. `handleCap` under scripted read faults and `_parallel_copy`).
 -/
 import PdshVerif.Relay.TailLemmas
 import PdshVerif.Relay.Interleave
 import PdshVerif.Relay.Simulation
 import PdshVerif.Relay.DomIff
 import PdshVerif.Relay.IndexSim
+import PdshVerif.Relay.Poll
 
 namespace PdshVerif.C05
 open PdshVerif.Relay
@@ -54,40 +91,89 @@ theorem dom_in_words (m : Option Bytes) (s : Bytes) :
     domain -- fewer than 131072 bytes whenever input remains (`Room`), hence the descriptor
     write `cbuf_write_from_fd (cb, fd, -1, &dropped)` never overwrites: dropped = 0, and it
     appends a non-empty prefix of what is available. -/
-theorem descriptor_write_never_drops {sizeMeta : Nat} (hm1 : 1 ≤ sizeMeta) (hm2 : sizeMeta ≤ 800)
+theorem descriptor_write_never_drops {sizeMeta : Nat}
     {b : PBuf} (hi : BufInv sizeMeta b) (avail : Bytes) (eof : Bool)
     (hroom : avail ≠ [] → b.f.q.length < 131072) :
     (PBuf.wfd b avail eof).2.1 = 0 ∧
     ∃ k, (PBuf.wfd b avail eof).2.2.f.q = b.f.q ++ avail.take k ∧ (avail ≠ [] → 0 < k) ∧
       BufInv sizeMeta (PBuf.wfd b avail eof).2.2 := by
-  obtain ⟨k, hw, hk0, _, hinv⟩ := wfd_fifo hi hm1 hm2 avail eof hroom
+  obtain ⟨k, hw, hk0, _, hinv⟩ := wfd_fifo hi avail eof hroom
   rw [hw]
   exact ⟨rfl, k, rfl, hk0, hinv⟩
+
+/-! ### the side condition on the regenerated constants -/
+
+/-- THE REGENERATED CONSTANTS SATISFY THE SIDE CONDITION, shipped build flavour (NDEBUG: one
+    bookkeeping cell).  A `decide`d fact about named constants: when a change to dsh.c/cbuf.c makes
+    it false this theorem stops compiling (proof obligation broken) AND the check's pinned
+    boundary streams show the lost bytes on the real code. -/
+theorem growthOk_generated : growthOk Gen.CBUF_SIZE_META = true := by decide +kernel
+
+/-- ... and the build flavour with assertions (two magic cookies around the data) -/
+theorem growthOk_generated_assert : growthOk Gen.RELAY_SIZE_META_ASSERT = true := by decide +kernel
+
+/-- a 4096-byte initial buffer (harmless change C06-H2) satisfies the condition in both flavours:
+    4096+1 + 1000 rounds up to 6000, the even thousands again -/
+theorem growth_from_4096_ok : growthOkFor 4096 131072 1 = true ∧ growthOkFor 4096 131072 17 = true := by
+  decide +kernel
+
+/-- a 1024-byte initial buffer does NOT: 1024+1 + 1000 rounds up to 3000, the odd thousands; the
+    full buffer of 130999 bytes grows to 131072 -- 73 bytes -- for a read of up to 1000 -/
+theorem growth_from_1024_not_ok : growthOkFor 1024 131072 1 = false ∧
+    firstBadStep 131072 Gen.CBUF_CHUNK 1 4096 1024 = some (130999, 131072) := by decide +kernel
+
+/-- THE CONDITION IS NECESSARY.  A full buffer below its maximum whose growth step is capped at
+    the maximum and gains less than the read asks for (`hshort`) OVERWRITES unread bytes as soon
+    as the descriptor holds that much: dropped = size + request - maximum > 0 -- in the relay these
+    are bytes of a line that is within the 128 KiB of the domain. -/
+theorem short_growth_step_drops (b : PBuf) (hfull : b.f.q.length = b.f.size) (_hpos : 0 < b.f.size)
+    (hmode : b.f.mode = .wrapMany) (hle : b.f.size ≤ b.f.maxsize) (hcap : b.grown.1 = b.f.maxsize)
+    (hshort : b.f.maxsize < b.f.size + min b.f.size Gen.CBUF_CHUNK)
+    (avail : Bytes) (hav : min b.f.size Gen.CBUF_CHUNK ≤ avail.length) (eof : Bool) :
+    (PBuf.wfd b avail eof).2.1 = b.f.size + min b.f.size Gen.CBUF_CHUNK - b.f.maxsize ∧
+    0 < (PBuf.wfd b avail eof).2.1 := by
+  have hc : 0 < Gen.CBUF_CHUNK := by decide
+  have hreq : wfdRequest b.f.size b.f.q.length = min b.f.size Gen.CBUF_CHUNK := by
+    simp [wfdRequest, hfull]
+  generalize hk : min b.f.size Gen.CBUF_CHUNK = k at *
+  have hk0 : 0 < k := by omega
+  have hreq0 : k ≠ 0 := by omega
+  have hne : avail.isEmpty = false := by
+    cases avail with
+    | nil => simp at hav; omega
+    | cons a r => rfl
+  have hmin : min k avail.length = k := Nat.min_eq_left hav
+  have hadm : Cbuf.Spec.admitSize b.f b.f.maxsize = true := by
+    simp [Cbuf.Spec.admitSize]; omega
+  have hnl : ¬ (k > avail.length) := by omega
+  simp only [PBuf.wfd, hreq, hreq0, ↓reduceIte, hne, Bool.false_eq_true, hmin]
+  simp [Cbuf.Spec.writeFromFd, hadm, hreq0, hmode, Cbuf.Spec.lossOk, hcap, hnl, hfull]
+  omega
 
 /-- CLOSED FORM (chunk independence in its strongest form): for every stream `S` in the domain
     and EVERY script that feeds it, the list of stdio calls is: one call `prefix ++ line` per
     line of `S`, in order, then the calls `_flush_output` spends on the unterminated rest;
     th->rc stays 0. -/
 theorem relay_closed_form (cfg : Cfg) (host t0host : Bytes) (strm : Nat) (readRc : Bool)
-    {sizeMeta : Nat} (hm1 : 1 ≤ sizeMeta) (hm2 : sizeMeta ≤ 800) {b0 : PBuf}
+    {sizeMeta : Nat} (hg : growthOk sizeMeta = true) {b0 : PBuf}
     (hb0 : mkFifoBuf sizeMeta = some b0) (script : List Bytes)
     (hdom : Spec.Dom05 (markerOf readRc) script.flatten = true) :
     (runStream fifoOps cfg host t0host strm readRc b0 script).ems =
       (Spec.lines script.flatten).map (fun l => (⟨strm, labelPrefix cfg.labels cfg.keep host ++ l⟩ : Em)) ++
         tailEms cfg host strm ((Spec.tail script.flatten).length + 1) (Spec.tail script.flatten) false ∧
     (runStream fifoOps cfg host t0host strm readRc b0 script).rc = 0 := by
-  exact runStream_closed cfg host strm readRc t0host hm1 hm2 hb0 script hdom
+  exact runStream_closed cfg host strm readRc t0host hg hb0 script hdom
 
 /-- `relay_lossless`: the bytes written for the host are exactly the labelled stream --
     every line and a non-empty final fragment preceded by the prefix, nothing lost, duplicated,
     reordered or invented -- however the stream is fragmented. -/
 theorem relay_lossless (cfg : Cfg) (host t0host : Bytes) (strm : Nat) (readRc : Bool)
-    {sizeMeta : Nat} (hm1 : 1 ≤ sizeMeta) (hm2 : sizeMeta ≤ 800) {b0 : PBuf}
+    {sizeMeta : Nat} (hg : growthOk sizeMeta = true) {b0 : PBuf}
     (hb0 : mkFifoBuf sizeMeta = some b0) (script : List Bytes)
     (hdom : Spec.Dom05 (markerOf readRc) script.flatten = true) :
     written (runStream fifoOps cfg host t0host strm readRc b0 script).ems =
       Spec.render (labelPrefix cfg.labels cfg.keep host) script.flatten := by
-  obtain ⟨h1, _⟩ := relay_closed_form cfg host t0host strm readRc hm1 hm2 hb0 script hdom
+  obtain ⟨h1, _⟩ := relay_closed_form cfg host t0host strm readRc hg hb0 script hdom
   have h0 : ∀ b ∈ Spec.tail script.flatten, b ≠ 0 := fun b hb => dom_noNul hdom b (mem_of_mem_rest hb)
   obtain ⟨ht, _⟩ := tailEms_flatten cfg host strm _ (Spec.tail script.flatten) (Nat.lt_succ_self _) h0
   unfold written
@@ -99,33 +185,33 @@ theorem relay_lossless (cfg : Cfg) (host t0host : Bytes) (strm : Nat) (readRc : 
 
 /-- the same with the labels stripped: what pdsh wrote for the host IS what the command wrote -/
 theorem relay_lossless_stripped (cfg : Cfg) (host t0host : Bytes) (strm : Nat) (readRc : Bool)
-    {sizeMeta : Nat} (hm1 : 1 ≤ sizeMeta) (hm2 : sizeMeta ≤ 800) {b0 : PBuf}
+    {sizeMeta : Nat} (hg : growthOk sizeMeta = true) {b0 : PBuf}
     (hb0 : mkFifoBuf sizeMeta = some b0) (script : List Bytes)
     (hdom : Spec.Dom05 (markerOf readRc) script.flatten = true) :
     Spec.strip (labelPrefix cfg.labels cfg.keep host).length
       (written (runStream fifoOps cfg host t0host strm readRc b0 script).ems) = script.flatten := by
-  rw [relay_lossless cfg host t0host strm readRc hm1 hm2 hb0 script hdom, Spec.strip_render]
+  rw [relay_lossless cfg host t0host strm readRc hg hb0 script hdom, Spec.strip_render]
 
 /-- the specification's verdict (the oracle the check applies to the real code's stdio calls)
     holds of the model -/
 theorem relay_c05Ok (cfg : Cfg) (host t0host : Bytes) (strm : Nat) (readRc : Bool)
-    {sizeMeta : Nat} (hm1 : 1 ≤ sizeMeta) (hm2 : sizeMeta ≤ 800) {b0 : PBuf}
+    {sizeMeta : Nat} (hg : growthOk sizeMeta = true) {b0 : PBuf}
     (hb0 : mkFifoBuf sizeMeta = some b0) (script : List Bytes)
     (hdom : Spec.Dom05 (markerOf readRc) script.flatten = true) :
     Spec.c05Ok (labelPrefix cfg.labels cfg.keep host) script.flatten
       ((runStream fifoOps cfg host t0host strm readRc b0 script).ems.map Em.bytes) = true := by
-  have h := relay_lossless cfg host t0host strm readRc hm1 hm2 hb0 script hdom
+  have h := relay_lossless cfg host t0host strm readRc hg hb0 script hdom
   unfold written at h
   simp [Spec.c05Ok, h]
 
 /-- nothing else is emitted: every stdio call of the stream goes to the stream's own FILE
     (no diagnostic of dsh.c -- stream 9 -- is ever reached) -/
 theorem relay_only_own_stream (cfg : Cfg) (host t0host : Bytes) (strm : Nat) (readRc : Bool)
-    {sizeMeta : Nat} (hm1 : 1 ≤ sizeMeta) (hm2 : sizeMeta ≤ 800) {b0 : PBuf}
+    {sizeMeta : Nat} (hg : growthOk sizeMeta = true) {b0 : PBuf}
     (hb0 : mkFifoBuf sizeMeta = some b0) (script : List Bytes)
     (hdom : Spec.Dom05 (markerOf readRc) script.flatten = true) :
     ∀ e ∈ (runStream fifoOps cfg host t0host strm readRc b0 script).ems, e.stream = strm := by
-  obtain ⟨h1, _⟩ := relay_closed_form cfg host t0host strm readRc hm1 hm2 hb0 script hdom
+  obtain ⟨h1, _⟩ := relay_closed_form cfg host t0host strm readRc hg hb0 script hdom
   have h0 : ∀ b ∈ Spec.tail script.flatten, b ≠ 0 := fun b hb => dom_noNul hdom b (mem_of_mem_rest hb)
   obtain ⟨_, ht⟩ := tailEms_flatten cfg host strm _ (Spec.tail script.flatten) (Nat.lt_succ_self _) h0
   intro e he
@@ -140,13 +226,13 @@ theorem relay_only_own_stream (cfg : Cfg) (host t0host : Bytes) (strm : Nat) (re
     calls, call by call (so nothing observable depends on read sizes or on where lines are
     split across reads) -/
 theorem relay_chunk_independent (cfg : Cfg) (host t0host : Bytes) (strm : Nat) (readRc : Bool)
-    {sizeMeta : Nat} (hm1 : 1 ≤ sizeMeta) (hm2 : sizeMeta ≤ 800) {b0 : PBuf}
+    {sizeMeta : Nat} (hg : growthOk sizeMeta = true) {b0 : PBuf}
     (hb0 : mkFifoBuf sizeMeta = some b0) (script script' : List Bytes) (hsame : script.flatten = script'.flatten)
     (hdom : Spec.Dom05 (markerOf readRc) script.flatten = true) :
     (runStream fifoOps cfg host t0host strm readRc b0 script).ems =
       (runStream fifoOps cfg host t0host strm readRc b0 script').ems := by
-  obtain ⟨h1, _⟩ := relay_closed_form cfg host t0host strm readRc hm1 hm2 hb0 script hdom
-  obtain ⟨h2, _⟩ := relay_closed_form cfg host t0host strm readRc hm1 hm2 hb0 script' (hsame ▸ hdom)
+  obtain ⟨h1, _⟩ := relay_closed_form cfg host t0host strm readRc hg hb0 script hdom
+  obtain ⟨h2, _⟩ := relay_closed_form cfg host t0host strm readRc hg hb0 script' (hsame ▸ hdom)
   rw [h1, h2, hsame]
 
 /-- MANY HOSTS STREAMING AT ONCE, ALL INTERLEAVINGS.  `evs` is ANY global sequence of events
@@ -155,15 +241,14 @@ theorem relay_chunk_independent (cfg : Cfg) (host t0host : Bytes) (strm : Nat) (
     `k` that, in this run, receives some cutting `script` of a stream in the domain and then
     finishes, the stdio calls of `k` found in the GLOBAL output (in their global order) write
     exactly `k`'s labelled stream -- whatever the other streams did in between. -/
-theorem relay_lossless_any_interleaving (cfg : Cfg) (names : Nat → Bytes) {sizeMeta : Nat} (hm1 : 1 ≤ sizeMeta)
-    (hm2 : sizeMeta ≤ 800) {b0 : PBuf} (hb0 : mkFifoBuf sizeMeta = some b0)
+theorem relay_lossless_any_interleaving (cfg : Cfg) (names : Nat → Bytes) {sizeMeta : Nat} (hg : growthOk sizeMeta = true) {b0 : PBuf} (hb0 : mkFifoBuf sizeMeta = some b0)
     (evs : List (Key × LEv)) (k : Key) (script : List Bytes)
     (hk : (evs.filter (fun e => e.1 = k)).map (·.2) = script.map LEv.feed ++ [LEv.finish])
     (hdom : Spec.Dom05 (markerOf (!k.2)) script.flatten = true) :
     written (logOf (evs.foldl (gstep fifoOps cfg names) (ginit b0)) k) =
       Spec.render (labelPrefix cfg.labels cfg.keep (names k.1)) script.flatten := by
   rw [global_stream_is_runStream fifoOps cfg names b0 evs k script hk]
-  exact relay_lossless cfg (names k.1) (names 0) (strmNo k) (!k.2) hm1 hm2 hb0 script hdom
+  exact relay_lossless cfg (names k.1) (names 0) (strmNo k) (!k.2) hg hb0 script hdom
 
 /-- THE SAME FOR THE INDEX-LEVEL RELAY, UNCONDITIONALLY.  `indexOps` is the model of cbuf.c's
     indices and data array (Cbuf/Model.lean) -- the instance of the relay that is executed
@@ -172,7 +257,7 @@ theorem relay_lossless_any_interleaving (cfg : Cfg) (names : Nat → Bytes) {siz
     facts of Relay/IndexSim.lean), so from the buffer `cbuf_create (64, 131072)` yields it makes
     the same stdio calls: closed form, th->rc = 0 ... -/
 theorem relay_closed_form_index (cfg : Cfg) (host t0host : Bytes) (strm : Nat) (readRc : Bool)
-    {sizeMeta : Nat} (hm1 : 1 ≤ sizeMeta) (hm2 : sizeMeta ≤ 800) {a0 : Cbuf.Cbuf}
+    {sizeMeta : Nat} (hg : growthOk sizeMeta = true) {a0 : Cbuf.Cbuf}
     (ha0 : mkIndexBuf sizeMeta = some a0) (script : List Bytes)
     (hdom : Spec.Dom05 (markerOf readRc) script.flatten = true) :
     (runStream indexOps cfg host t0host strm readRc a0 script).ems =
@@ -180,31 +265,31 @@ theorem relay_closed_form_index (cfg : Cfg) (host t0host : Bytes) (strm : Nat) (
         tailEms cfg host strm ((Spec.tail script.flatten).length + 1) (Spec.tail script.flatten) false ∧
     (runStream indexOps cfg host t0host strm readRc a0 script).rc = 0 := by
   obtain ⟨b0, hb0⟩ := mkFifoBuf_some sizeMeta
-  obtain ⟨e1, e2⟩ := runStream_index_eq_fifo cfg host t0host strm readRc (by omega) ha0 hb0 script
+  obtain ⟨e1, e2⟩ := runStream_index_eq_fifo cfg host t0host strm readRc (growthOk_pos hg) ha0 hb0 script
   rw [e1, e2]
-  exact relay_closed_form cfg host t0host strm readRc hm1 hm2 hb0 script hdom
+  exact relay_closed_form cfg host t0host strm readRc hg hb0 script hdom
 
 /-- ... and is lossless for every stream in the domain and every chunking -/
 theorem relay_lossless_index (cfg : Cfg) (host t0host : Bytes) (strm : Nat) (readRc : Bool)
-    {sizeMeta : Nat} (hm1 : 1 ≤ sizeMeta) (hm2 : sizeMeta ≤ 800) {a0 : Cbuf.Cbuf}
+    {sizeMeta : Nat} (hg : growthOk sizeMeta = true) {a0 : Cbuf.Cbuf}
     (ha0 : mkIndexBuf sizeMeta = some a0) (script : List Bytes)
     (hdom : Spec.Dom05 (markerOf readRc) script.flatten = true) :
     written (runStream indexOps cfg host t0host strm readRc a0 script).ems =
       Spec.render (labelPrefix cfg.labels cfg.keep host) script.flatten := by
   obtain ⟨b0, hb0⟩ := mkFifoBuf_some sizeMeta
-  rw [(runStream_index_eq_fifo cfg host t0host strm readRc (by omega) ha0 hb0 script).1]
-  exact relay_lossless cfg host t0host strm readRc hm1 hm2 hb0 script hdom
+  rw [(runStream_index_eq_fifo cfg host t0host strm readRc (growthOk_pos hg) ha0 hb0 script).1]
+  exact relay_lossless cfg host t0host strm readRc hg hb0 script hdom
 
 /-- ... also with many hosts streaming at once, for every interleaving -/
 theorem relay_lossless_index_any_interleaving (cfg : Cfg) (names : Nat → Bytes) {sizeMeta : Nat}
-    (hm1 : 1 ≤ sizeMeta) (hm2 : sizeMeta ≤ 800) {a0 : Cbuf.Cbuf} (ha0 : mkIndexBuf sizeMeta = some a0)
+    (hg : growthOk sizeMeta = true) {a0 : Cbuf.Cbuf} (ha0 : mkIndexBuf sizeMeta = some a0)
     (evs : List (Key × LEv)) (k : Key) (script : List Bytes)
     (hk : (evs.filter (fun e => e.1 = k)).map (·.2) = script.map LEv.feed ++ [LEv.finish])
     (hdom : Spec.Dom05 (markerOf (!k.2)) script.flatten = true) :
     written (logOf (evs.foldl (gstep indexOps cfg names) (ginit a0)) k) =
       Spec.render (labelPrefix cfg.labels cfg.keep (names k.1)) script.flatten := by
   rw [global_stream_is_runStream indexOps cfg names a0 evs k script hk]
-  exact relay_lossless_index cfg (names k.1) (names 0) (strmNo k) (!k.2) hm1 hm2 ha0 script hdom
+  exact relay_lossless_index cfg (names k.1) (names 0) (strmNo k) (!k.2) hg ha0 script hdom
 
 /-! ### clauses of the property spelled out (corollaries of the theorems above)
 
@@ -219,8 +304,7 @@ theorem relay_lossless_index_any_interleaving (cfg : Cfg) (names : Nat → Bytes
     clause: `_handle_rcmd_stderr` passes read_rc = false, so for stderr the domain is just "no NUL,
     lines and final fragment at most 128 KiB"; text that contains the return-code marker is relayed
     verbatim there.  (Index-level relay, every chunking.) -/
-theorem stderr_relayed_like_stdout (cfg : Cfg) (host t0host : Bytes) {sizeMeta : Nat} (hm1 : 1 ≤ sizeMeta)
-    (hm2 : sizeMeta ≤ 800) {a0 : Cbuf.Cbuf} (ha0 : mkIndexBuf sizeMeta = some a0) (script : List Bytes)
+theorem stderr_relayed_like_stdout (cfg : Cfg) (host t0host : Bytes) {sizeMeta : Nat} (hg : growthOk sizeMeta = true) {a0 : Cbuf.Cbuf} (ha0 : mkIndexBuf sizeMeta = some a0) (script : List Bytes)
     (h0 : ∀ b ∈ script.flatten, b ≠ 0) (hl : ∀ l ∈ Spec.lines script.flatten, l.length ≤ 131072)
     (ht : (Spec.tail script.flatten).length ≤ 131072) :
     written (runStream indexOps cfg host t0host 2 false a0 script).ems =
@@ -229,10 +313,35 @@ theorem stderr_relayed_like_stdout (cfg : Cfg) (host t0host : Bytes) {sizeMeta :
   have hdom : Spec.Dom05 (markerOf false) script.flatten = true := by
     rw [dom_in_words]
     exact ⟨h0, hl, ht, by intro mk hmk; simp [markerOf] at hmk⟩
-  refine ⟨relay_lossless_index cfg host t0host 2 false hm1 hm2 ha0 script hdom, ?_⟩
+  refine ⟨relay_lossless_index cfg host t0host 2 false hg ha0 script hdom, ?_⟩
   obtain ⟨b0, hb0⟩ := mkFifoBuf_some sizeMeta
-  rw [(runStream_index_eq_fifo cfg host t0host 2 false (by omega) ha0 hb0 script).1]
-  exact relay_only_own_stream cfg host t0host 2 false hm1 hm2 hb0 script hdom
+  rw [(runStream_index_eq_fifo cfg host t0host 2 false (growthOk_pos hg) ha0 hb0 script).1]
+  exact relay_only_own_stream cfg host t0host 2 false hg hb0 script hdom
+
+/-- pdcp / rpdcp.  `_rcp_thread` relays no stdout (the copy protocol owns that descriptor: properties C11/C12);
+    `_parallel_copy` relays the remote STDERR with the same `_handle_rcmd_stderr` and `_flush_output` -- for rpdcp
+    always, for pdcp when its client failed -- and then with the same guarantee: complete, in order, exactly once,
+    under the host's label, on pdsh's stderr only, whatever the fragmentation. -/
+theorem rcp_stderr_relayed (cfg : Cfg) (host t0host : Bytes) (popt : Bool) (rv : Int) (hbr : popt = true ∨ rv < 0)
+    {sizeMeta : Nat} (hg : growthOk sizeMeta = true) {a0 : Cbuf.Cbuf} (ha0 : mkIndexBuf sizeMeta = some a0)
+    (script : List Bytes) (h0 : ∀ b ∈ script.flatten, b ≠ 0)
+    (hl : ∀ l ∈ Spec.lines script.flatten, l.length ≤ 131072) (ht : (Spec.tail script.flatten).length ≤ 131072) :
+    written (parallelCopyStderr indexOps cfg host t0host popt rv a0 script) =
+      Spec.render (labelPrefix cfg.labels cfg.keep host) script.flatten ∧
+    ∀ e ∈ parallelCopyStderr indexOps cfg host t0host popt rv a0 script, e.stream = 2 := by
+  have hb : (popt = true ∨ rv < 0) := hbr
+  simp only [parallelCopyStderr, hb, ↓reduceIte]
+  exact stderr_relayed_like_stdout cfg host t0host hg ha0 script h0 hl ht
+
+/-- ... and a pdcp client that SUCCEEDS never reads the remote stderr: whatever the remote side wrote there is
+    not relayed (dsh.c's comment: "stderr is unlikely"; reading could block for ever).  Not a clause of C05 --
+    the property is about remote commands -- but said here rather than left implicit. -/
+theorem pdcp_success_reads_no_stderr {β : Type} (ops : BufOps β) (cfg : Cfg) (host t0host : Bytes) (rv : Int)
+    (hrv : 0 ≤ rv) (b : β) (script : List Bytes) :
+    parallelCopyStderr ops cfg host t0host false rv b script = [] := by
+  have h : ¬ (false = true ∨ rv < 0) := by simp; omega
+  unfold parallelCopyStderr
+  rw [if_neg h]
 
 theorem render_nil (s : Bytes) : Spec.render [] s = s := by
   have h := Spec.strip_render [] s
@@ -246,11 +355,11 @@ theorem render_nil (s : Bytes) : Spec.render [] s = s := by
 /-- -N (NO-LABEL MODE): what pdsh writes for the host is the stream itself, byte for byte, for
     every chunking (index-level relay, either stream) -/
 theorem relay_verbatim_with_N (cfg : Cfg) (hN : cfg.labels = false) (host t0host : Bytes) (strm : Nat)
-    (readRc : Bool) {sizeMeta : Nat} (hm1 : 1 ≤ sizeMeta) (hm2 : sizeMeta ≤ 800) {a0 : Cbuf.Cbuf}
+    (readRc : Bool) {sizeMeta : Nat} (hg : growthOk sizeMeta = true) {a0 : Cbuf.Cbuf}
     (ha0 : mkIndexBuf sizeMeta = some a0) (script : List Bytes)
     (hdom : Spec.Dom05 (markerOf readRc) script.flatten = true) :
     written (runStream indexOps cfg host t0host strm readRc a0 script).ems = script.flatten := by
-  rw [relay_lossless_index cfg host t0host strm readRc hm1 hm2 ha0 script hdom]
+  rw [relay_lossless_index cfg host t0host strm readRc hg ha0 script hdom]
   simp [labelPrefix, hN, render_nil]
 
 /-- A TARGET WHOSE COMMAND NEVER STARTS (the transport's child fails before exec and writes nothing
@@ -259,12 +368,12 @@ theorem relay_verbatim_with_N (cfg : Cfg) (hN : cfg.labels = false) (host t0host
     diagnostic about it is not relayed output.  That the child leaves pdsh's inherited stdio buffers
     alone -- `_exit` -- is an assumption about the transport, checked by the real-process runs.) -/
 theorem unstarted_host_writes_nothing (cfg : Cfg) (host t0host : Bytes) (strm : Nat) (readRc : Bool)
-    {sizeMeta : Nat} (hm1 : 1 ≤ sizeMeta) (hm2 : sizeMeta ≤ 800) {a0 : Cbuf.Cbuf}
+    {sizeMeta : Nat} (hg : growthOk sizeMeta = true) {a0 : Cbuf.Cbuf}
     (ha0 : mkIndexBuf sizeMeta = some a0) (script : List Bytes) (hempty : script.flatten = []) :
     (runStream indexOps cfg host t0host strm readRc a0 script).ems = [] := by
   have hdom : Spec.Dom05 (markerOf readRc) script.flatten = true := by
     rw [hempty]; cases readRc <;> decide
-  obtain ⟨h1, _⟩ := relay_closed_form_index cfg host t0host strm readRc hm1 hm2 ha0 script hdom
+  obtain ⟨h1, _⟩ := relay_closed_form_index cfg host t0host strm readRc hg ha0 script hdom
   rw [h1, hempty]
   simp [Spec.lines, Spec.tail, Spec.split, tailEms]
 
@@ -289,9 +398,10 @@ theorem marker_lookalikes_untouched (skip : Bool) :
     `x`: its complete lines, then its unterminated rest under the label -- no byte of `x` lost,
     none of `rest` invented.  (Index-level relay, stream in the domain.) -/
 theorem abandoned_stream_relays_what_was_read (cfg : Cfg) (host t0host : Bytes) (strm : Nat) (readRc : Bool)
-    {sizeMeta : Nat} (hm1 : 1 ≤ sizeMeta) (hm2 : sizeMeta ≤ 800) {a0 : Cbuf.Cbuf}
+    {sizeMeta : Nat} (hg : growthOk sizeMeta = true) {a0 : Cbuf.Cbuf}
     (ha0 : mkIndexBuf sizeMeta = some a0) (script : List Bytes)
-    (hdom : Spec.Dom05 (markerOf readRc) script.flatten = true) :
+    (hdom : Spec.Dom05 (markerOf readRc) script.flatten = true)
+    (hT : Spec.wholeTailBelow ≤ Gen.RELAY_TAILBUF) :     -- only for the C06 clause: the flush piece covers 8 KiB
     ∃ x rest : Bytes, x ++ rest = script.flatten ∧
       written (runAbandoned indexOps cfg host t0host strm readRc a0 script).ems =
         Spec.render (labelPrefix cfg.labels cfg.keep host) x ∧
@@ -299,8 +409,8 @@ theorem abandoned_stream_relays_what_was_read (cfg : Cfg) (host t0host : Bytes) 
         Spec.c06Ok (labelPrefix cfg.labels cfg.keep host) x
           ((runAbandoned indexOps cfg host t0host strm readRc a0 script).ems.map Em.bytes) = true) := by
   obtain ⟨b0, hb0⟩ := mkFifoBuf_some sizeMeta
-  obtain ⟨x, rest, hx, hems, h0⟩ := runAbandoned_closed cfg host strm readRc t0host hm1 hm2 hb0 script hdom
-  rw [runAbandoned_sim idx_sim cfg host t0host strm readRc a0 b0 (idxRel_init (by omega) ha0 hb0) script]
+  obtain ⟨x, rest, hx, hems, h0⟩ := runAbandoned_closed cfg host strm readRc t0host hg hb0 script hdom
+  rw [runAbandoned_sim idx_sim cfg host t0host strm readRc a0 b0 (idxRel_init (growthOk_pos hg) ha0 hb0) script]
   have h0t : ∀ b ∈ Spec.tail x, b ≠ 0 := fun b hb => h0 b (mem_of_mem_rest hb)
   obtain ⟨ht, _⟩ := tailEms_flatten cfg host strm _ (Spec.tail x) (Nat.lt_succ_self _) h0t
   refine ⟨x, rest, hx, ?_, ?_⟩
@@ -311,13 +421,166 @@ theorem abandoned_stream_relays_what_was_read (cfg : Cfg) (host t0host : Bytes) 
     simp only [List.map_map, List.flatMap]
     rfl
   · intro hfix
-    have hto := tailEms_ok cfg host strm hfix _ (Spec.tail x) (Nat.lt_succ_self _) h0t
+    have hto := tailEms_ok cfg host strm hT hfix _ (Spec.tail x) (Nat.lt_succ_self _) h0t
     have hlen : ((Spec.lines x).map
         (Em.bytes ∘ fun l => (⟨strm, labelPrefix cfg.labels cfg.keep host ++ l⟩ : Em))).length =
         (Spec.lines x).length := by simp
     rw [hems, List.map_append, List.map_map]
     simp only [Spec.c06Ok, List.take_left' hlen, List.drop_left' hlen, Bool.and_eq_true, beq_iff_eq]
     exact ⟨rfl, hto⟩
+
+/-! ### the poll / read / report loop of `_rsh_thread` (one worker, both descriptors)
+
+  `pollStep` (Relay/Model.lean) is the loop as a transition system: the environment chooses arrivals and
+  hang-ups on either descriptor, which descriptors each `xpoll` return reports (any subset, also spuriously),
+  how many bytes the one read(2) of a handler call delivers (short reads; 0 = EAGAIN), and interrupted
+  polls (EINTR: `continue`) -- in ANY order.  A read that fails with EINTR is retried inside cbuf.c and never
+  shows.  Leaving the loop early (command timeout, poll error) = the event list stops there.  After the
+  loop come the two `_flush_output` calls (`workerFinish`).  `acceptedOf isErr evs false` = everything the
+  remote side wrote on that descriptor before closing it. -/
+
+/-- the bytes the handler of one descriptor wrote, final flush included, out of ALL stdio calls of the worker -/
+def writtenBy (calls : List (Bool × Em)) (isErr : Bool) : Bytes :=
+  written ((calls.filter (fun x => x.1 = isErr)).map (·.2))
+
+theorem written_of_closed_form (cfg : Cfg) (host : Bytes) (strm : Nat) (x : Bytes) (h0 : ∀ b ∈ x, b ≠ 0) :
+    written ((Spec.lines x).map (fun l => (⟨strm, labelPrefix cfg.labels cfg.keep host ++ l⟩ : Em)) ++
+        tailEms cfg host strm ((Spec.tail x).length + 1) (Spec.tail x) false) =
+      Spec.render (labelPrefix cfg.labels cfg.keep host) x := by
+  have h0t : ∀ b ∈ Spec.tail x, b ≠ 0 := fun b hb => h0 b (mem_of_mem_rest hb)
+  obtain ⟨ht, _⟩ := tailEms_flatten cfg host strm _ (Spec.tail x) (Nat.lt_succ_self _) h0t
+  unfold written
+  rw [List.map_append, List.flatten_append, ht]
+  unfold Spec.render
+  congr 1
+  simp only [List.map_map, List.flatMap]
+  rfl
+
+/-- THE LOOP IS LEFT ONLY AT EOF OF BOTH STREAMS, EVERYTHING READ.  After ANY event sequence: a descriptor
+    the worker has closed (fd = -1) is one whose remote side has closed and whose data has all been read; so
+    when `while (xpfds[0].fd >= 0 || xpfds[1].fd >= 0)` is over, both streams have reached EOF and nothing
+    is left in either descriptor. -/
+theorem poll_loop_left_only_at_eof_of_both (cfg : Cfg) (host : Bytes) {sizeMeta : Nat} (hg : growthOk sizeMeta = true)
+    {b0 : PBuf} (hb0 : mkFifoBuf sizeMeta = some b0) (evs : List PEv)
+    (hdO : Spec.Dom05 (markerOf true) (acceptedOf false evs false) = true)
+    (hdE : Spec.Dom05 (markerOf false) (acceptedOf true evs false) = true) :
+    (evs.foldl (pollStep fifoOps cfg host) (Worker.init b0)).loopLeft = true →
+      (evs.foldl (pollStep fifoOps cfg host) (Worker.init b0)).out.1.weof = true ∧
+      (evs.foldl (pollStep fifoOps cfg host) (Worker.init b0)).out.1.pipe = [] ∧
+      (evs.foldl (pollStep fifoOps cfg host) (Worker.init b0)).err.1.weof = true ∧
+      (evs.foldl (pollStep fifoOps cfg host) (Worker.init b0)).err.1.pipe = [] := by
+  have hinv := pollRun_inv cfg host (dom_room hdO) (dom_room hdE) evs (Worker.init b0) [] []
+    (by simp [Worker.init]) (by simp [Worker.init]) (worker_init_inv cfg host hg hb0)
+  intro hl
+  simp only [Worker.loopLeft, Bool.and_eq_true] at hl
+  obtain ⟨h1, h2⟩ := hinv.out.2 hl.1
+  obtain ⟨h3, h4⟩ := hinv.err.2 hl.2
+  exact ⟨h1, h2, h3, h4⟩
+
+/-- ... AND IT IS LEFT THEN: the handler call on an open descriptor whose remote side has closed and whose
+    data has been read (read returns 0) closes it, whatever the cap of the read; a call that still finds data,
+    or finds nothing on a descriptor that is not at EOF (EAGAIN), leaves it open.  (Per descriptor, in any
+    state the loop can be in: `SInv` is the invariant `pollRun_inv` establishes.) -/
+theorem handler_closes_exactly_at_eof (cfg : Cfg) (host : Bytes) (strm : Nat) (readRc : Bool) {sizeMeta : Nat}
+    {S fed fut : Bytes} (hS : fed ++ fut = S) (hdom : Spec.Dom05 (markerOf readRc) S = true)
+    {st : SState PBuf} (hinv : SInv cfg host strm readRc sizeMeta fed st) (hopen : st.1.closed = false)
+    (cap : Option Nat) :
+    (sstep fifoOps cfg host strm readRc st (.call cap)).1.closed = true ↔ (st.1.weof = true ∧ st.1.pipe = []) :=
+  sstep_call_closed cfg host strm readRc hS (dom_room hdom) hinv hopen cap
+
+/-- WHATEVER THE WORKER HAS READ HAS BEEN WRITTEN WHEN IT IS DONE -- for every event sequence, however the loop
+    was left (both streams at EOF, command timeout, poll error).  Per descriptor there is a prefix `x` of what
+    the remote side wrote, the rest being exactly what still sits unread in the descriptor, such that the bytes
+    written for it (handler calls in the loop + its `_flush_output`) are the labelled `x`: complete, in order,
+    exactly once, unterminated tail included. -/
+theorem worker_delivers_what_it_read (cfg : Cfg) (host t0host : Bytes) {sizeMeta : Nat}
+    (hg : growthOk sizeMeta = true) {b0 : PBuf} (hb0 : mkFifoBuf sizeMeta = some b0) (evs : List PEv)
+    (hdO : Spec.Dom05 (markerOf true) (acceptedOf false evs false) = true)
+    (hdE : Spec.Dom05 (markerOf false) (acceptedOf true evs false) = true) :
+    ∃ xo xe : Bytes,
+      xo ++ (evs.foldl (pollStep fifoOps cfg host) (Worker.init b0)).out.1.pipe = acceptedOf false evs false ∧
+      xe ++ (evs.foldl (pollStep fifoOps cfg host) (Worker.init b0)).err.1.pipe = acceptedOf true evs false ∧
+      writtenBy (workerRun fifoOps cfg host t0host b0 evs) false = Spec.render (labelPrefix cfg.labels cfg.keep host) xo ∧
+      writtenBy (workerRun fifoOps cfg host t0host b0 evs) true = Spec.render (labelPrefix cfg.labels cfg.keep host) xe := by
+  have hinv := pollRun_inv cfg host (dom_room hdO) (dom_room hdE) evs (Worker.init b0) [] []
+    (by simp [Worker.init]) (by simp [Worker.init]) (worker_init_inv cfg host hg hb0)
+  unfold workerRun
+  generalize evs.foldl (pollStep fifoOps cfg host) (Worker.init b0) = w at hinv ⊢
+  obtain ⟨xo, hxo, hfo, h0o⟩ := stream_closed_form cfg host 1 true t0host hdO hinv.out.1
+  obtain ⟨xe, hxe, hfe, h0e⟩ := stream_closed_form cfg host 2 false t0host hdE hinv.err.1
+  refine ⟨xo, xe, hxo, hxe, ?_, ?_⟩
+  · unfold writtenBy
+    rw [workerFinish_logOf, hinv.logO]
+    simp only [Bool.false_eq_true, ↓reduceIte]
+    rw [hfo]
+    exact written_of_closed_form cfg host 1 xo h0o
+  · unfold writtenBy
+    rw [workerFinish_logOf, hinv.logE]
+    simp only [↓reduceIte]
+    rw [hfe]
+    exact written_of_closed_form cfg host 2 xe h0e
+
+/-- A WORKER RETURNS ONLY AFTER ITS OUTPUT HAS BEEN DELIVERED (the clause of C03; exported for it).  When the
+    loop has been left because both descriptors are closed, ALL that the remote command wrote on stdout and on
+    stderr has been handed to stdio by the time the two flushes return -- i.e. before `rcmd_destroy`, before the
+    worker decrements `threadcount` and signals dsh(): byte for byte the labelled streams. -/
+theorem worker_done_has_delivered_everything (cfg : Cfg) (host t0host : Bytes) {sizeMeta : Nat}
+    (hg : growthOk sizeMeta = true) {b0 : PBuf} (hb0 : mkFifoBuf sizeMeta = some b0) (evs : List PEv)
+    (hdO : Spec.Dom05 (markerOf true) (acceptedOf false evs false) = true)
+    (hdE : Spec.Dom05 (markerOf false) (acceptedOf true evs false) = true)
+    (hleft : (evs.foldl (pollStep fifoOps cfg host) (Worker.init b0)).loopLeft = true) :
+    writtenBy (workerRun fifoOps cfg host t0host b0 evs) false =
+      Spec.render (labelPrefix cfg.labels cfg.keep host) (acceptedOf false evs false) ∧
+    writtenBy (workerRun fifoOps cfg host t0host b0 evs) true =
+      Spec.render (labelPrefix cfg.labels cfg.keep host) (acceptedOf true evs false) := by
+  obtain ⟨_, hpo, _, hpe⟩ := poll_loop_left_only_at_eof_of_both cfg host hg hb0 evs hdO hdE hleft
+  obtain ⟨xo, xe, hxo, hxe, ho, he⟩ := worker_delivers_what_it_read cfg host t0host hg hb0 evs hdO hdE
+  rw [hpo, List.append_nil] at hxo
+  rw [hpe, List.append_nil] at hxe
+  subst hxo; subst hxe
+  exact ⟨ho, he⟩
+
+/-- THE BRIDGE TO THE PER-STREAM VIEW (`runStream`, `Relay/Interleave.lean`'s `LEv.feed .. ++ [LEv.finish]`, which
+    property C03's end-to-end LTS composes with): a worker whose loop was left at EOF of both streams has written,
+    per descriptor, exactly what `runStream` writes for ANY script carrying the same bytes -- so a worker run may
+    be replaced by its two per-stream runs, whatever the polls, caps and interruptions were. -/
+theorem worker_done_equals_runStream (cfg : Cfg) (host t0host : Bytes) {sizeMeta : Nat}
+    (hg : growthOk sizeMeta = true) {b0 : PBuf} (hb0 : mkFifoBuf sizeMeta = some b0) (evs : List PEv)
+    (hdO : Spec.Dom05 (markerOf true) (acceptedOf false evs false) = true)
+    (hdE : Spec.Dom05 (markerOf false) (acceptedOf true evs false) = true)
+    (hleft : (evs.foldl (pollStep fifoOps cfg host) (Worker.init b0)).loopLeft = true)
+    (scriptO scriptE : List Bytes) (hO : scriptO.flatten = acceptedOf false evs false)
+    (hE : scriptE.flatten = acceptedOf true evs false) :
+    writtenBy (workerRun fifoOps cfg host t0host b0 evs) false =
+      written (runStream fifoOps cfg host t0host 1 true b0 scriptO).ems ∧
+    writtenBy (workerRun fifoOps cfg host t0host b0 evs) true =
+      written (runStream fifoOps cfg host t0host 2 false b0 scriptE).ems := by
+  obtain ⟨h1, h2⟩ := worker_done_has_delivered_everything cfg host t0host hg hb0 evs hdO hdE hleft
+  rw [h1, h2, ← hO, ← hE]
+  exact ⟨(relay_lossless cfg host t0host 1 true hg hb0 scriptO (hO ▸ hdO)).symm,
+         (relay_lossless cfg host t0host 2 false hg hb0 scriptE (hE ▸ hdE)).symm⟩
+
+/-- non-vacuity: "ab\n" then "c" arrive on stdout, "e\n" on stderr; polls with a short read of 1 byte, a
+    spurious wake-up, an interrupted poll; both sides close; the loop is left and everything is written -/
+example : ∀ b0, mkFifoBuf 1 = some b0 →
+    let evs : List PEv := [.arrive false [97, 98, 10], .poll (some (some 1)) none, .eintr, .arrive true [101, 10],
+      .poll (some none) (some (some 0)), .arrive false [99], .hup false, .poll (some none) (some none),
+      .hup true, .poll (some none) (some none), .poll none (some none)]
+    (evs.foldl (pollStep fifoOps ⟨true, false, false, false, false⟩ [104]) (Worker.init b0)).loopLeft = true ∧
+    workerRun fifoOps ⟨true, false, false, false, false⟩ [104] [104] b0 evs =
+      [(false, ⟨1, [104, 58, 32, 97, 98, 10]⟩), (true, ⟨2, [104, 58, 32, 101, 10]⟩), (false, ⟨1, [104, 58, 32, 99]⟩)] := by
+  intro b0 h
+  simp [mkFifoBuf, Cbuf.Spec.create, Gen.RELAY_CBUF_MIN, Gen.RELAY_CBUF_MAX] at h
+  subst h
+  decide
+
+/-- A READ THAT FAILS (an error other than EAGAIN/EINTR -- outside the property's domain, said for completeness):
+    the handler prints one diagnostic, closes the descriptor and returns -1; nothing that had been read is lost --
+    the buffer is untouched, so `_flush_output` still writes its unterminated rest -- and nothing more is read. -/
+theorem read_error_keeps_what_was_read {β : Type} (s : Stream β) (rc : Int) :
+    (handleFail s rc).1 = -1 ∧ (handleFail s rc).2.1.buf = s.buf ∧ (handleFail s rc).2.1.pipe = s.pipe ∧
+    (handleFail s rc).2.1.closed = true ∧ (handleFail s rc).2.2 = (rc, [diag]) :=
+  ⟨rfl, rfl, rfl, rfl, rfl⟩
 
 /-! ### outside the domain: what the code does with lines over 128 KiB and with NUL bytes
 
@@ -439,9 +702,20 @@ theorem thrc_survives_later_line_witness :
 
 /-! ### non-vacuity and sharpness -/
 
-/-- the hypotheses are satisfiable: the shipped build has sizeMeta = 1, "ab\ncd" is in the domain -/
-example : ∃ b0, mkFifoBuf 1 = some b0 ∧ Spec.Dom05 (markerOf true) [97, 98, 10, 99, 100] = true :=
-  ⟨_, rfl, by decide⟩
+/-- the hypotheses are satisfiable: the shipped build has sizeMeta = 1 and satisfies the side
+    condition, "ab\ncd" is in the domain -/
+example : ∃ b0, growthOk Gen.CBUF_SIZE_META = true ∧ mkFifoBuf Gen.CBUF_SIZE_META = some b0 ∧
+    Spec.Dom05 (markerOf true) [97, 98, 10, 99, 100] = true :=
+  ⟨_, growthOk_generated, rfl, by decide⟩
+
+/-- ... so for the code under test the theorems hold without any hypothesis about the constants:
+    e.g. losslessness of the index-level relay, shipped flavour -/
+theorem relay_lossless_index_generated (cfg : Cfg) (host t0host : Bytes) (strm : Nat) (readRc : Bool)
+    {a0 : Cbuf.Cbuf} (ha0 : mkIndexBuf Gen.CBUF_SIZE_META = some a0) (script : List Bytes)
+    (hdom : Spec.Dom05 (markerOf readRc) script.flatten = true) :
+    written (runStream indexOps cfg host t0host strm readRc a0 script).ems =
+      Spec.render (labelPrefix cfg.labels cfg.keep host) script.flatten :=
+  relay_lossless_index cfg host t0host strm readRc growthOk_generated ha0 script hdom
 
 /-- a concrete run: "ab\nc" arriving as "a", "b\nc" on host "h" is written as "h: ab\n", "h: c"
     (repaired tail form) -/
